@@ -42,6 +42,10 @@ Infer(e, x, u) == /\ stage = "frontend"
                   /\ (u => (e \/ errors)) \* and nothing is flagged without an error having been reported
                   /\ stage' = "infer" /\ errors' = (errors \/ e) /\ unsafe' = u
                   /\ UNCHANGED <<object, entries>>
+(* while inferring, a comptime block whose value the checker needs is compiled and run - but only
+   if no error was reported for an expression inside it (bad = the blocks that contain one) *)
+EvalBlock(k, bad) == /\ stage = "frontend" /\ k \notin bad
+                     /\ UNCHANGED <<stage, errors, unsafe, object, entries>>
 Report == /\ stage = "infer" /\ errors
           /\ stage' = "diagnostics" /\ UNCHANGED <<errors, unsafe, object, entries>>
 Comptime == /\ stage = "infer" /\ ~errors
@@ -55,6 +59,7 @@ Link == /\ stage = "object"
 
 PNext == \/ \E e \in BOOLEAN, n \in 0..3 : Frontend(e, n)
          \/ \E e, x, u \in BOOLEAN : Infer(e, x, u)
+         \/ \E k \in 1..8, bad \in SUBSET (1..3) : EvalBlock(k, bad)
          \/ Report \/ Comptime \/ NoEntry \/ Codegen \/ Link
 PSpec == PInit /\ [][PNext]_pvars
 
